@@ -30,12 +30,17 @@ def run(project, rep):
     from .. import rules_wire as W
     rep.run(W.l_r2_escaping, project, rep)
     rep.run(W.l_r2_escaping, project, rep, rule="W-R3", reader_decodable=True)
+    # "pretty-printing on or off": indent() stores only indentation, only where there was none (W-R7)
+    rep.run(W.w_r7_indent, project, rep)
     from .. import rules_dates as Z
     rep.run(Z.z_r7_aware_values_kept, project, rep)
     rep.run(Z.z_r3_writer_shape, project, rep)
+    # "parsed back ... date range": the reader gives the .MM minutes of an offset the sign of its hours (Z-R5)
+    rep.run(Z.z_r5_offset_sign, project, rep)
     from .. import rules_types as T
     rep.rule("Q-R8", "the identifiers written are the identifiers supplied: the string writers return exactly what passed the length check, nothing clipped (T-R3)")
     rep.run(T.t_r3, project, rep)
+    rep.run(T.t_r10_supplied_text_kept, project, rep)
     from .. import rules_client as N
     rep.rule("Q-R9", "the sign-on says what the client was configured with: every constructor argument is stored (N-R9); a profile request, which is given no credentials, carries only the placeholder (N-R6)")
     rep.run(N.n_r9_constructor_params, project, rep)
